@@ -695,6 +695,18 @@ Theorem C14_addr_search_then_empty_pattern : forall valid find buf k d re tail a
 Proof. exact SubstAddrProps.search_then_empty_pattern. Qed.
 Print Assumptions C14_addr_search_then_empty_pattern.
 
+(* the search as SECOND address,  <first>,/re/<tail>  or  <first>;/re/<tail>  (N,/re/  N;/re/  .,/re/+1 ...), <first> one address
+   without a search: either <first> was refused before the search ran (an unset mark) and everything is as it was, or re is
+   what the address leaves behind *)
+Theorem C14_addr_search_second : forall valid find buf k c pre sep d re tail bad b e k1,
+  SubstAddrProps.nosearch (c :: pre) -> SubstAddrProps.nosep (c :: pre) -> (sep = 44 \/ sep = 59) ->
+  (d = 47 \/ d = 63) -> plain d re -> re <> [] -> SubstAddrProps.nosearch tail ->
+  a_region valid find buf ((c :: pre) ++ sep :: d :: re ++ d :: tail) k = Some (bad, b, e, k1) ->
+  (bad = true /\ k_kwd k1 = k_kwd k /\ k_dir k1 = k_dir k /\ k_rep k1 = k_rep k) \/
+  (k_kwd k1 = re /\ k_dir k1 = (if d =? 47 then 1%Z else (-1)%Z) /\ k_rep k1 = k_rep k).
+Proof. exact SubstAddrProps.region_search_second. Qed.
+Print Assumptions C14_addr_search_second.
+
 (* the head behind an accepted address IS SubstDefs.subst_setup (C14_reuse, the C14_gflag theorems) run on the state the address left *)
 Theorem C14_addr_head_is_setup : forall valid find buf loc arg k b e k1,
   a_region valid find buf loc k = Some (false, b, e, k1) ->
